@@ -29,7 +29,7 @@ CLAIMS = {
  "C07": ("as C06, programs of 2-3 concurrently committing snapshot transactions with intersecting write sets (plus autocommit writers); the L0 conflict rule under linearisation decides first-committer-wins; a TLAPS proof that test-and-publish in one critical section gives first-committer-wins for any number of transactions and keys (proofs/CommitProof.tla)",
          "Every interleaving of the commit micro-steps (registry delete, conflict check, sequence draws, publication, unlink) up to the preemption bound is executed on the real code.", "6 C07"),
  "C08": ("as C06, programs of snapshot readers x multi-key committers x autocommit writers x collector; Begin of a snapshot transaction may linearise after its return (consistency and stability, not recency)",
-         "Reads of every snapshot transaction must be explained by one instant of the linearised commit order. Recorded defects: Begin between the publishing draws of a commit, Begin unregistered while the collector fixes its horizon (known findings, recognised by their schedules and outcomes: a fractured but stable snapshot, a version lost to the collector; anything else under the same schedule is a violation).", "6 C08"),
+         "Reads of every snapshot transaction must be explained by one instant of the linearised commit order. The two defects these executions and the L2 model found (a Begin between the publishing draws of a commit; a Begin unregistered while the collector fixes its horizon) were kept as known findings, recognised by schedule and outcome, and are repaired now (sequence.NextN, sequence.Horizon; constants RangeDraw / HorizonLock of FsDbConc.tla).", "6 C08"),
  "C09": ("TLC action property GCInvisible + ReadableHasContent on FsDb.tla, replay of behaviours with the collector at every position; blame by ablation of the GC steps",
          "The collector is enabled at every state of the bounded model; in the real code all reads of all open transactions are compared before/after and for the rest of the behaviour, and a disagreement that disappears when the GC steps are left out is attributed to the collector. A reader held open (ROpen/RFinish in the specification) across overwrites, ends of transactions and collections must deliver the content it began with.", "6 C09"),
  "C10": ("TLC invariants on SetRetry.tla (no-space continuation over roots: success is exact, continues where there is room) and Upload.tla (an aborted upload leaves no trace, nobody sees a prefix) + every emitted fault scenario executed on the real code (write-fault and free-space hooks; failing reader, cancelled context, cut connection through a proxy)",
@@ -39,7 +39,7 @@ CLAIMS = {
  "C12": ("TLC on AsyncRW.tla (one action per segment between two gates of read_writer.go; safety Concatenation, no stuck state, liveness CloseReturns) + every emitted schedule replayed step by step on the real readWriter + inline Create end to end under controlled schedules",
          "All schedules of writer and storing goroutine for 16 write patterns (sizes 0..3, empty writes first/middle/last) x reader buffer sizes are enumerated by TLC and executed on the real pipe through its gates with zero drift; a hang is recognised from goroutine wait states (all actors blocked), never by time-out; Create with sizes 0, 1, 32 KiB +-1 runs under the scheduler and free (inline and gRPC) and is linearised.", "6 C12"),
  "C13": ("TLC action property LateIsIdentity on FsDb.tla with late operations enabled for every ended handle + replay with an RU observer and reopen",
-         "Every operation through ended handles is tried at every state of the bounded model; the real result classes and all other readers' reads are compared with the promise. One stage runs through the gRPC client. The recorded defect (late writes accepted) is modelled as the named deviation 'latewrite'.", "6 C13"),
+         "Every operation through ended handles is tried at every state of the bounded model; the real result classes and all other readers' reads are compared with the promise. One stage runs through the gRPC client. The defect this found (late writes accepted) was modelled as the named deviation 'latewrite' until it was repaired at the handle; the deviation is no longer allowed.", "6 C13"),
  "C14": ("TLC invariant Reclaimed on FsDb.tla + replay of behaviours ending in quiescence with a walk of the storage roots",
          "At every quiescent state (no open transaction, pool drained, one collector pass, or clean reopen) the real roots must hold exactly one content file per readable key.", "6 C14"),
  "C16": ("TLC safety (each job at most once, no panic, no start after Stop, Stop waits for jobs, no stranded job) and liveness on WPool.tla (effects silent, observations = gate arrivals); real pool executions under the controlled scheduler judged by counters and goroutine states and validated by TLC against WPoolTrace.tla; TLC counterexample schedules replayed",
